@@ -8,7 +8,9 @@ PAYLOADS = ["pl", "a==b", "==", "SELECT", "CURRENT DATE", "CURRENT TIMESTAMP x",
             "cross", "USING", "sort", "Distribute", "cluster", "left", "join", "on", "as", "limit", "union", "where", "order", "group", "partition", "over", "null", "true", "and", "not", "in", "is",
             "total\n", "\nx", "x\n\n", "x ", " x", "x\t", "x\r", "x\u3000", "x.", ".x", "903", "1x", "x-1", "_", "$", "a b c",
             "caſe", "exıſtſ", "ıſ", "ﬁrst", "straße", "İd", "\u212a", "ſelect", "uſıng",
-            "a\\tb", "\\d+", "C:\\\\dir", "\\\\", "x\\%y", "\\n\\r", "\\", "ab\\"]
+            "a\\tb", "\\d+", "C:\\\\dir", "\\\\", "x\\%y", "\\n\\r", "\\", "ab\\",
+            # the names the function parser looks at AFTER stripping the back-quotes (parser.py:557-587): a back-quoted `cast` is read as the CAST keyword (F-C06-6)
+            "cast", "CAST", "extract", "if", "substring", "count", "Sum", "max"]
 # region kind -> (open, close, forbidden substrings)
 REGIONS = {"sq": ("'", "'", ["'"]), "dq": ('"', '"', ['"']), "bq": ("`", "`", ["`"]), "block": ("/*", "*/", ["*/", "*"]),
            "dash": ("-- ", "\n", ["\n", "\r"]), "hash": ("# ", "\n", ["\n", "\r"])}
@@ -95,6 +97,8 @@ def run(ctx):
     for (d, kind, tmpl, p1, p2, a, b), (_, xa, _), (_, xb, _), pa, rta in zip(cases, ra, rb, pr, rt):
         comment = kind in ("block", "dash", "hash")
         cls = finding_class(d, [p1, p2])
+        if cls is None and kind == "bq" and "{R}(" in tmpl and any(p.upper() in ("CAST", "EXTRACT", "IF", "SUBSTRING", "COUNT", "SUM", "MAX", "MIN", "AVG") for p in (p1, p2)):
+            cls = "backquoted-function-name-read-as-keyword"
         if cls is None and kind == "bq" and any(p.count(".") == 1 for p in (p1, p2)) and any(k in tmpl for k in ("FROM {R}", "UPDATE {R}", "INTO {R}", "{R}(", "TABLE {R}")):
             cls = "dot-in-backquoted-table-or-function-name"
         def fail(sig, detail):
